@@ -3,7 +3,7 @@
 # and /repo under /tmp/tryenv (refreshed from the committed state on every call), so that it can run
 # while other checks use /repo. The copy is left in place for the next call.
 PATCH=$1; shift
-E=/tmp/tryenv
+E=${TRYENV:-/tmp/tryenv}
 mkdir -p $E
 rsync -a --delete --exclude out --exclude .git --exclude .lake /verif/ $E/verif/
 rsync -a /verif/lean/.lake/ $E/verif/lean/.lake/ 2>/dev/null
